@@ -77,6 +77,9 @@ pub struct Gen<'a, 'c>
 	budget: usize,
 	/// generating a constant initialiser: only scalar constants may be read
 	in_const: bool,
+	/// generating an `if` condition: no structure literals (the parser
+	/// reserves `{` for the branch, as the docs' examples imply)
+	in_cond: bool,
 }
 
 fn lit(v: u128, ty: Prim) -> Expr
@@ -102,6 +105,7 @@ impl<'a, 'c> Gen<'a, 'c>
 			in_func: 0,
 			budget: 0,
 			in_const: false,
+			in_cond: false,
 		}
 	}
 
@@ -642,10 +646,14 @@ impl<'a, 'c> Gen<'a, 'c>
 					let holders = self.aggregate_places(&Ty::Named(*si), false);
 					if is_word
 					{
-						if !holders.is_empty() && self.c.flag()
+						if !holders.is_empty() && (self.in_cond || self.c.flag())
 						{
 							let h = self.c.pick(&holders).clone();
 							Arg::Value(Expr::Read(h, Ty::Named(*si)))
+						}
+						else if self.in_cond
+						{
+							return None;
 						}
 						else
 						{
@@ -897,6 +905,15 @@ impl<'a, 'c> Gen<'a, 'c>
 	// -------------------------------------------------------- statements
 
 	fn cmp(&mut self, depth: usize) -> Cmp
+	{
+		let saved = self.in_cond;
+		self.in_cond = true;
+		let c = self.cmp_inner(depth);
+		self.in_cond = saved;
+		c
+	}
+
+	fn cmp_inner(&mut self, depth: usize) -> Cmp
 	{
 		let ty = self.pick_prim();
 		// ordering of bool and char8 is not documented: equality only
